@@ -936,8 +936,10 @@ class H2Stream:
         if self.state_machine.client and self._authority is None:
             self._authority = authority_from_headers(headers)
 
-        # store request method for _initialize_content_length
-        self.request_method = extract_method_header(headers)
+        # store request method for _initialize_content_length (only request
+        # headers carry one: trailers must not make us forget it)
+        if self.request_method is None:
+            self.request_method = extract_method_header(headers)
 
         return frames
 
@@ -1087,6 +1089,7 @@ class H2Stream:
             StreamInputs.RECV_PUSH_PROMISE
         )
         self._authority = authority_from_headers(pushed_headers)
+        self.request_method = extract_method_header(pushed_headers)
         return [], events
 
     def receive_headers(self, headers, end_stream, header_encoding):
